@@ -96,8 +96,8 @@ func init() {
 					return ex.B.True
 				}
 			}
-			for o := range a.objs {
-				if _, ok := b.objs[o]; ok {
+			for o, ra := range a.objs {
+				if rb, ok := b.objs[o]; ok && ra[0] < rb[1] && rb[0] < ra[1] {
 					return ex.B.True
 				}
 			}
@@ -279,6 +279,19 @@ type storageSet struct {
 	maps map[*MapObj]bool
 }
 
+// addRange widens the element range of o that the set owns.
+func (s *storageSet) addRange(o *Object, lo, hi int) {
+	if r, ok := s.objs[o]; ok {
+		if r[0] < lo {
+			lo = r[0]
+		}
+		if r[1] > hi {
+			hi = r[1]
+		}
+	}
+	s.objs[o] = [2]int{lo, hi}
+}
+
 func (ex *Exec) collectStorage(v Value, s *storageSet, depth int) {
 	if depth > 6 {
 		return
@@ -286,6 +299,12 @@ func (ex *Exec) collectStorage(v Value, s *storageSet, depth int) {
 	switch x := v.(type) {
 	case *Ptr:
 		if x.Obj == nil {
+			return
+		}
+		if len(x.Path) > 0 {
+			// a pointer into an array or struct object owns only that element / field
+			s.addRange(x.Obj, x.Path[0], x.Path[0]+1)
+			ex.collectStorage(ex.load(x), s, depth+1)
 			return
 		}
 		if _, ok := s.objs[x.Obj]; ok {
@@ -401,7 +420,15 @@ func (ex *Exec) collectStorageDeep(v Value, s *storageSet, depth int) {
 		if x.Obj == nil {
 			return
 		}
-		if _, ok := s.objs[x.Obj]; ok {
+		if len(x.Path) > 0 {
+			if r, ok := s.objs[x.Obj]; ok && r[0] <= x.Path[0] && x.Path[0] < r[1] {
+				return
+			}
+			s.addRange(x.Obj, x.Path[0], x.Path[0]+1)
+			ex.collectStorageDeep(ex.load(x), s, depth+1)
+			return
+		}
+		if r, ok := s.objs[x.Obj]; ok && r[0] == 0 && r[1] == 1<<30 {
 			return
 		}
 		s.objs[x.Obj] = [2]int{0, 1 << 30}
@@ -456,5 +483,66 @@ func init() {
 			}
 		}
 		return ex.i64(int64(n))
+	}
+}
+
+// Wire-framing predicates over a (long, mostly concrete) byte string, built as one
+// boolean term each instead of interpreting a byte loop:
+//
+//	vWireBare(s)        some CR not followed by LF, or LF not preceded by CR
+//	vWireTerminated(s)  s ends in CRLF
+//	vWireVerbs(s, verb) every line (start of s, or after an LF) begins with verb followed by ' ' or CR
+func init() {
+	isB := func(ex *Exec, t *Term, c byte) *Term { return ex.B.Eq(t, ex.B.Const(8, uint64(c))) }
+	intrinsics["vWireBare"] = func(ex *Exec, fr *frame, args []Value) Value {
+		b := args[0].(*Str).B
+		var bad []*Term
+		for i := range b {
+			cr, lf := isB(ex, b[i], '\r'), isB(ex, b[i], '\n')
+			if i+1 < len(b) {
+				bad = append(bad, ex.B.And(cr, ex.B.Not(isB(ex, b[i+1], '\n'))))
+			} else {
+				bad = append(bad, cr)
+			}
+			if i > 0 {
+				bad = append(bad, ex.B.And(lf, ex.B.Not(isB(ex, b[i-1], '\r'))))
+			} else {
+				bad = append(bad, lf)
+			}
+		}
+		return ex.B.Or(bad...)
+	}
+	intrinsics["vWireTerminated"] = func(ex *Exec, fr *frame, args []Value) Value {
+		b := args[0].(*Str).B
+		if len(b) < 2 {
+			return ex.B.False
+		}
+		return ex.B.And(isB(ex, b[len(b)-2], '\r'), isB(ex, b[len(b)-1], '\n'))
+	}
+	intrinsics["vWireVerbs"] = func(ex *Exec, fr *frame, args []Value) Value {
+		b := args[0].(*Str).B
+		verb := concreteName(ex, args[1])
+		var all []*Term
+		for p := 0; p < len(b); p++ {
+			start := ex.B.True
+			if p > 0 {
+				start = isB(ex, b[p-1], '\n')
+			}
+			if start == ex.B.False {
+				continue
+			}
+			m := []*Term{}
+			if p+len(verb) >= len(b) {
+				all = append(all, ex.B.Not(start)) // no room for verb and a terminator
+				continue
+			}
+			for k := 0; k < len(verb); k++ {
+				m = append(m, isB(ex, b[p+k], verb[k]))
+			}
+			nx := b[p+len(verb)]
+			m = append(m, ex.B.Or(isB(ex, nx, ' '), isB(ex, nx, '\r')))
+			all = append(all, ex.B.Implies(start, ex.B.And(m...)))
+		}
+		return ex.B.And(all...)
 	}
 }
